@@ -622,6 +622,111 @@ def probe_bounds(facts, res):
 
 
 
+NORETURN_CALLS = {"abort", "exit", "terminate", "_Exit", "quick_exit", "__builtin_unreachable", "longjmp", "rethrow_exception", "__assert_fail"}
+
+
+def _completes(s):
+    """can control reach the end of statement s?  (structural: conditions are not evaluated, a loop without a constant-true
+    condition may end, `if` without `else` may be skipped)"""
+    if s is None:
+        return True
+    k = s.get("k")
+    if k == "CompoundStmt":
+        return all(_completes(c) for c in kids(s))
+    if k in ("ReturnStmt", "CXXThrowExpr"):
+        return False
+    if k == "IfStmt":
+        c = s["c"]
+        then, els = (c[-2], c[-1]) if len(c) >= 3 else (c[1], None)
+        if els is None:
+            return True
+        return _completes(then) or _completes(els)
+    if k in ("WhileStmt", "ForStmt"):
+        cond = s["c"][-2] if k == "WhileStmt" else s["c"][1]
+        c0 = strip(cond) if cond is not None else None
+        inf = cond is None or (c0.get("k") == "CXXBoolLiteralExpr" and c0.get("val")) or (c0.get("k") == "IntegerLiteral" and c0.get("val") == 1)
+        return not (inf and not any(x.get("k") == "BreakStmt" for x in walk(s)))
+    if k in ("CXXTryStmt",):
+        return any(_completes(c) for c in kids(s))
+    e = strip(s)
+    if e is not None and e.get("k") == "ExprWithCleanups" and kids(e):
+        e = strip(kids(e)[0])
+    if e is not None and e.get("k") == "CXXThrowExpr":
+        return False
+    if e is not None and e.get("k") == "CallExpr" and tbf.callee_name(e) in NORETURN_CALLS:
+        return False
+    return True
+
+
+def returns_on_every_path(facts, res, R="C15.11.value-returned", prefix=("src/",)):
+    """flowing off the end of a value-returning function is undefined behaviour (the optimiser may drop everything after the last
+    statement: the caller runs into whatever follows).  Every function of the library with a non-void declared return type and a body
+    must not be able to reach its closing brace."""
+    n = 0
+    for f in facts.functions:
+        if f.get("inst") or tbf.body(f) is None or f["kind"] in ("CXXConstructor", "CXXDestructor", "CXXConversion"):
+            continue
+        path = tbf.rel(facts.path_of(f))
+        if not path.startswith(prefix):
+            continue
+        r = (f.get("ret") or "").strip()
+        if r in ("void", "") or r.startswith("auto") or r.startswith("decltype(auto)"):
+            continue
+        if re.search(r"enable_if(_t)?<", r) and (re.search(r",\s*void\s*>", r) or not re.search(r"enable_if(_t)?<.*,", r)):
+            continue        # enable_if<cond, void>::type / enable_if<cond>::type: void
+        n += 1
+        if _completes(tbf.body(f)):
+            res.violation(R, path, f["qname"], "falls-off:%s@%d" % (f["name"], f["l"][1]), f["l"][1],
+                          "%s is declared to return `%s` but control can reach the end of its body without a return statement: undefined behaviour when it is called (an optimised build runs past the function)" % (f["qname"], r[:60]))
+    return n
+
+
+_SCALAR = re.compile(r"^(const )?(unsigned |signed )?(long long|long|int|short|char|bool|float|double|size_t|std::size_t|ptrdiff_t|std::ptrdiff_t)( int)?$")
+
+
+def members_set_before_use(facts, res, R="C15.12.member-set-before-use", prefix=("src/",)):
+    """in a constructor a scalar / pointer member (no initialiser in the class, none in the constructor's list) holds an indeterminate value
+    until the body assigns it: the first thing the body does with it must be to give it a value (assignment, stream extraction, its
+    address handed out).  A pointer member handed to memcpy / dereferenced first is a write through a wild pointer."""
+    n = 0
+    for c in facts.classes:
+        fields = {f["name"]: f for f in c.get("fields", [])}
+        if not fields:
+            continue
+        for m in facts.methods_of(c["name"]):
+            if m["kind"] != "CXXConstructor" or tbf.body(m) is None or m.get("inst"):
+                continue
+            path = tbf.rel(facts.path_of(m))
+            if not path.startswith(prefix):
+                continue
+            inited = {i.get("member") for i in m.get("inits", []) if i.get("member")}    # the constructor's list and the class's default member initialisers
+            b = tbf.body(m)
+            tbf.link_parents(b)
+            n += 1
+            refs = sorted([x for x in walk(b) if x.get("k") in ("MemberExpr", "CXXDependentScopeMemberExpr") and x.get("name") in fields
+                           and (not kids(x) or strip(kids(x)[0]).get("k") == "CXXThisExpr")], key=lambda x: x.get("b", 0))
+            seen = set()
+            for x in refs:
+                nm = x["name"]
+                if nm in inited or nm in seen:
+                    continue
+                seen.add(nm)
+                t = fields[nm].get("t", "").strip()
+                if "[" in t or not (t.endswith("*") or _SCALAR.match(t) or re.match(r"^\w+$", t)):
+                    continue        # arrays and class-type members are constructed before the body runs
+                par = x.get("_p")
+                while par is not None and par.get("k") in ("ParenExpr", "ImplicitCastExpr"):
+                    par = par.get("_p")
+                write = par is not None and ((par.get("k") == "BinaryOperator" and par.get("op") == "=" and any(z is x for z in walk(kids(par)[0])))
+                                             or (par.get("k") == "UnaryOperator" and par.get("op") == "&")
+                                             or (par.get("k") == "CXXOperatorCallExpr" and par.get("op") in ("=", ">>")))
+                if not write:
+                    res.violation(R, path, m["qname"], "unset:%s@%d" % (nm, x["l"][1]), x["l"][1],
+                                  "the constructor uses the member '%s' (`%s`) in `%s` before anything has given it a value (no initialiser in the class or in the constructor's list): its value is indeterminate - %s"
+                                  % (nm, t, facts.ntext(par)[:60] if par is not None else nm, "the bytes are written through a wild pointer" if "memcpy" in (facts.ntext(par) if par is not None else "") or "memset" in (facts.ntext(par) if par is not None else "") else "undefined behaviour"))
+    return n
+
+
 def run(res, tier):
     facts = tbf.scan("core")
     res.units.append("umbrella TU 'core': OpenMP executors (CreateNew), rotation/uniform kernels + TbfPeriodicShifter, TbfMemoryBlock, wrapper/top-tree fill idioms")
@@ -688,6 +793,21 @@ def run(res, tier):
     res.instance("C15.9.guarded-probes", "group wrapper", "src/algorithms/sequential/tbfgroupkernelinterface.hpp", "%d conditions reading a cell at a running position" % len([i for i in sub9.instances if " probe@" in i["key"]]))
     res.rule("C15.10 in the in-group lookups a header record is read only at the binary search's result (after its `== count` exit) or at a computed position tested against both bounds on the same path")
     probe_bounds(facts, res)
+    res.rule("C15.11 every value-returning function of the library returns a value on every path (control cannot reach the closing brace of a non-void function); C15.12 a constructor gives a scalar / pointer member a value before it uses it")
+    n11 = returns_on_every_path(facts, res)
+    res.floor("C15.11", n11, 300, "value-returning functions under src/")
+    n12 = members_set_before_use(facts, res)
+    res.floor("C15.12", n12, 80, "constructors under src/")
+    res.instance("C15.11.value-returned", "functions", "umbrella 'core'", "%d value-returning functions, %d constructors examined" % (n11, n12))
+    fx11 = os.path.join(tbf.VERIF, "fixtures", "c15_special_members.cpp")
+    ff11 = tbf.scan_file(fx11, [], [os.path.join(tbf.VERIF, "fixtures") + os.sep])
+    ctl11 = tbf.Result("control")
+    returns_on_every_path(ff11, ctl11, prefix=("verif:fixtures",))
+    members_set_before_use(ff11, ctl11, prefix=("verif:fixtures",))
+    got11 = sorted(v["key"].split("@")[0] for v in ctl11.violations)
+    if got11 != ["falls-off:operator=", "unset:plan"]:
+        raise AnalysisBroken("positive control fixtures/c15_special_members.cpp: reported %s, expected the assignment without return and the move constructor's plan" % got11)
+    res.instance("C15.11.value-returned", "positive control", "verif:fixtures/c15_special_members.cpp", "2 of 2 seeded constructs reported, 3 harmless ones silent")
     res.rule("C15.5 a member that stores the address of an element of a container member is reset by every member function that clears / refills / reallocates that container")
     np_, nc_ = member_pointers_into_containers(facts, res)
     res.instance("C15.5.member-pointer-lifetime", "classes of src/core and src/algorithms", "umbrella 'core'", "%d classes with pointer-typed members examined, %d members hold addresses of container elements" % (nc_, np_))
